@@ -55,6 +55,12 @@ pub open spec fn bound_version(b: Bound) -> Option<Version> {
         _ => None,
     }
 }
+// ---- representation invariant, numeric part (DESIGN.md section 3): every version stored in a bound has components <= MAX_SAFE_INTEGER + 1
+// (`+ 1` comes from `minor + 1` etc. in the desugaring); it keeps `patch += 1` in min_version far from u64::MAX
+pub open spec fn ver_small(v: Version) -> bool { v.major <= MAX_SAFE_INTEGER + 1 && v.minor <= MAX_SAFE_INTEGER + 1 && v.patch <= MAX_SAFE_INTEGER + 1 }
+pub open spec fn bound_small(b: Bound) -> bool { bound_version(b) matches Some(w) ==> ver_small(w) }
+pub open spec fn bs_small(bs: BoundSet) -> bool { bound_small(*bs.lower) && bound_small(*bs.upper) }
+pub open spec fn ssmall(s: Seq<BoundSet>) -> bool { forall|i: int| 0 <= i < s.len() ==> bs_small(#[trigger] s[i]) }
 pub open spec fn optin(b: Bound, v: VKey) -> bool {
     bound_version(b) matches Some(w) && w.pre_release@.len() > 0 && same_tuple(key(w), v)
 }
